@@ -813,8 +813,11 @@ def remap_by_types(
 
         def visit_UnaryOp(self, node: ast.UnaryOp) -> Any:
             t_node = self.generic_visit(node)
-            self._found_types[node] = self._found_types[node.operand]
-            self._found_types[t_node] = self._found_types[node.operand]
+            assert isinstance(t_node, ast.UnaryOp)
+            # The operand's type may be unknown (e.g. an attribute of an untyped object)
+            t_operand = bool if isinstance(t_node.op, ast.Not) else self.lookup_type(t_node.operand)
+            self._found_types[node] = t_operand
+            self._found_types[t_node] = t_operand
             return t_node
 
         def visit_BinOp(self, node: ast.BinOp) -> Any:
